@@ -90,12 +90,26 @@ def _lattice(n, dim, shift=0):
     return out
 
 
+def _revisit(n, dim):
+    """n concrete points, every step of length 5, whose path comes back to an earlier location (index 1 == index 3 == index 7)"""
+    steps = [(3, 4), (3, -4), (-3, 4), (-3, 4), (3, 4), (3, -4), (-3, -4), (-3, -4), (3, 4)]
+    pt = [F(0)] * dim
+    out = [list(pt)]
+    for i in range(1, n):
+        dx, dy = steps[(i - 1) % len(steps)]
+        pt = [pt[0] + dx, pt[1] + dy] + pt[2:]
+        out.append(list(pt))
+    return out
+
+
 def _points(ctx, n, dim, sym, table, prefix='Q'):
     """data points (see module docstring): sym = 'all' | list of indices with a symbolic first coordinate"""
     if table == 'lattice':
         base = [[ctx.lit(c) for c in pt] for pt in _lattice(n, dim)]
     elif table == 'uniform':
         base = [[ctx.lit(c) for c in pt] for pt in _uniform(n, dim)]
+    elif table == 'revisit':
+        base = [[ctx.lit(c) for c in pt] for pt in _revisit(n, dim)]
     else:
         base = [[ctx.lit(F(3 * i * i - 7 * i, 4))] + [ctx.lit(F((i + 1) * (d + 2) + d * d, 1 + d)) for d in range(1, dim)]
                 for i in range(n)]
@@ -462,7 +476,10 @@ def _ac_shapes(tier):
            dict(m=7, p=3, ncp=5, dim=3, centripetal=True, sym=[], table='uniform'),
            # higher degrees with enough control points that basis functions further apart than the degree still overlap
            dict(m=10, p=4, ncp=8, dim=2, centripetal=False, sym=[], table='lattice'),
-           dict(m=11, p=5, ncp=9, dim=2, centripetal=True, sym=[], table='uniform')]
+           dict(m=11, p=5, ncp=9, dim=2, centripetal=True, sym=[], table='uniform'),
+           # data whose path comes back to a location visited before (equal points at different parameters)
+           dict(m=6, p=2, ncp=4, dim=2, centripetal=False, sym=[], table='revisit'),
+           dict(m=9, p=3, ncp=6, dim=3, centripetal=False, sym=[], table='revisit')]
     if tier == 'thorough':
         for c in (False, True):
             out.append(dict(m=7, p=3, ncp=6, dim=2, centripetal=c, sym=[0, 6], table='lattice'))
